@@ -27,7 +27,9 @@ def x5_excluded(key):
 def hx(bs):
     if isinstance(bs, str):
         bs = bs.encode("latin-1")
-    return "".join("%02x" % b for b in bs) if bs else "-"
+    # the prefix `x` keeps an all-decimal hex string (e.g. "30313233…") from being taken for a number by the
+    # runner's 64-bit clamp of op-line numbers
+    return "x" + "".join("%02x" % b for b in bs) if bs else "-"
 
 
 # key families
